@@ -577,6 +577,9 @@ func (v *Verifier) verifyWithCandidates(fn *ssa.Function, fc *FuncContract) *Fun
 						mu.Lock()
 						v.disabledAuto[m[1]] = true
 						dropped = true
+						if v.Opts.Verbose {
+							fmt.Printf("  candidate dropped (%s, %s): %s\n", r.Verdict, o.Name, m[1])
+						}
 						mu.Unlock()
 					}
 				}
